@@ -394,6 +394,14 @@ impl ConfigListener {
 }
 
 #[cfg(nacos_group_r_nacos_verif)]
+impl ConfigActor {
+    /// the history-id sequence (verification hook)
+    pub(crate) fn verif_sequence(&mut self) -> &mut SimpleSequence {
+        &mut self.sequence
+    }
+}
+
+#[cfg(nacos_group_r_nacos_verif)]
 impl ConfigListener {
     /// pending long-polls: version -> keys it waits on (verification hook)
     pub(crate) fn verif_dump(&self) -> String {
